@@ -480,13 +480,16 @@ def position_from_coefficients(q, r, theta, j):
     return float(np.hypot(vR, vp)), float(vz), float(q.phi[j] + np.arctan2(vp, vR))
 
 
-def toRZ_vs_coefficients(q, rng, npts=4, r=0.03):
-    """largest relative deviation of to_RZ((r, theta, phi_j)) from position_from_coefficients over a few nodes / angles"""
+def toRZ_vs_coefficients(q, rng, npts=4, r=0.03, periods=(0,)):
+    """largest relative deviation of to_RZ((r, theta, phi_j + m 2 pi / nfp)) from position_from_coefficients (moved by m field periods) over a few nodes / angles;
+    the returned toroidal angle is compared modulo 2 pi (NOT modulo the field period)"""
     worst = 0.0
-    for _ in range(npts):
+    for i_ in range(npts):
         j = int(rng.integers(0, q.nphi)); th = float(rng.random() * 6.28)
-        R1, Z1, P1 = q.to_RZ([[r, th, float(q.phi[j])]])
+        mper = periods[i_ % len(periods)]
+        R1, Z1, P1 = q.to_RZ([[r, th, float(q.phi[j]) + mper * 2 * np.pi / q.nfp]])
         R2, Z2, P2 = position_from_coefficients(q, r, th, j)
+        P2 = P2 + mper * 2 * np.pi / q.nfp
         worst = max(worst, abs(float(R1[0]) - R2) / max(abs(R2), 1e-300), abs(float(Z1[0]) - Z2) / max(abs(R2), 1e-300), abs((float(P1[0]) - P2 + np.pi) % (2 * np.pi) - np.pi))
     return worst
 
